@@ -284,6 +284,12 @@ def compare_entries(expected, page):
     idx = 0
     while i < len(exp) and j < len(act):
         e, n = exp[i], act[j]
+        if e.get("optional"):
+            # left open by the properties: consume the entry if it is there, never complain
+            if matches(e, n):
+                j += 1
+            i += 1
+            continue
         if matches(e, n):
             check_entry(e, n, fails, idx)
             i += 1
@@ -292,8 +298,13 @@ def compare_entries(expected, page):
             # is e further down in act (extra entries before it), or n further down in exp (missing entries)?
             ahead_act = next((jj for jj in range(j + 1, len(act)) if matches(e, act[jj])), None)
             ahead_exp = next((ii for ii in range(i + 1, len(exp)) if matches(exp[ii], n)), None)
+            if ahead_exp is not None and all(exp[ii].get("optional") for ii in range(i, ahead_exp)):
+                i = ahead_exp
+                continue
             if ahead_exp is not None and (ahead_act is None or ahead_exp - i <= ahead_act - j):
                 for ii in range(i, ahead_exp):
+                    if exp[ii].get("optional"):
+                        continue
                     fails.append((f"missing:{exp[ii].get('kind')}", f"entry for {ident_of(exp[ii])} missing (position {idx})"))
                 i = ahead_exp
             elif ahead_act is not None:
@@ -306,6 +317,8 @@ def compare_entries(expected, page):
                 j += 1
         idx += 1
     for ii in range(i, len(exp)):
+        if exp[ii].get("optional"):
+            continue
         fails.append((f"missing:{exp[ii].get('kind')}", f"entry for {ident_of(exp[ii])} missing at end"))
     for jj in range(j, len(act)):
         fails.append((f"extra:{act[jj].name}", f"unexpected entry {node_key(act[jj])} at end"))
